@@ -1,12 +1,17 @@
 import AiocoapModel.Basic.Bytes
 import AiocoapModel.Render.Render
+import AiocoapModel.Render.Tcp
 import AiocoapModel.MsgLayer.Model
 /-! Line protocol for C09.
 
-`C09 nosite|site <res>* -- <event>*`
+`C09 [tcp.<maxpayload>] nosite|site <res>* -- <event>*`
+
+With `tcp.<n>` the responses leave through the TCP token interface (`Render/Tcp.lean`) of a peer
+whose CSM lets a response carry `n` bytes in one message; without it through the UDP message layer.
 
 resource  `res:<path>:<method>=<outcome>,<method>=<outcome>…`   path = segments joined by `/`
-outcome   `r.<code|->.<payloadhex|->.<nr|->`   returns a message
+payload   hex, `-` for empty, or `<xx>*<n>` for n bytes 0xxx
+outcome   `r.<code|->.<payload>.<nr|->`   returns a message
           `e.<code>.<diaghex|->`               raises a renderable error
           `x.<texthex|->`                      raises another exception
           `n.<texthex|->`                      returns something that is not a message
@@ -19,7 +24,10 @@ Output: one group per distinct consecutive tick, separated by `|`; a group is th
 (`;`) of `S<id>:<token>:<code>:<payload>:<nr>:<last>` (send_message calls), `U<id>` (entry removed),
 `K<id>` (a still running handler is cancelled), `L:<kind>` (log records at WARNING and above);
 then ` # ` and the sorted list of response datagrams that reach the wire (`<token>:<code>:<payload>`,
-i.e. the sends the message layer's No-Response rule does not suppress).
+i.e. the sends the message layer's No-Response rule does not suppress).  In `tcp` mode the payloads of
+the `S` items and the wire entries — there the complete RFC 8323 frames `transport.write` is called
+with — are written by `rle`: two hex digits per byte, a maximal run of 8 or more equal bytes as
+`[xx*n]`.
 -/
 namespace Aiocoap.Render
 
@@ -29,11 +37,21 @@ def parseOptNat (s : String) : Option (Option Nat) :=
 def parsePath (s : String) : List String :=
   if s = "" then [] else s.splitOn "/"
 
+/-- hex, or `<xx>*<n>`: n bytes xx -/
+def parsePayload (s : String) : Option Payload :=
+  match s.splitOn "*" with
+  | [b, n] => do
+    match ← hexToBytes b with
+    | [x] => pure (List.replicate (← n.toNat?) x)
+    | _ => none
+  | [h] => hexToBytes h
+  | _ => none
+
 def parseOutcome (s : String) : Option Outcome :=
   match s.splitOn "." with
   | ["r", c, p, nr] => do
-    pure (.returns (← parseOptNat c) (← hexToBytes p) (← parseOptNat nr))
-  | ["e", c, d] => do pure (.raisesRenderable (← c.toNat?) (← hexToBytes d))
+    pure (.returns (← parseOptNat c) (← parsePayload p) (← parseOptNat nr))
+  | ["e", c, d] => do pure (.raisesRenderable (← c.toNat?) (← parsePayload d))
   | ["x", t] => do pure (.raisesOther (← hexToBytes t))
   | ["n", t] => do pure (.returnsNonMessage (← hexToBytes t))
   | ["q", t] => do pure (.rendererFails false (← hexToBytes t))
@@ -75,18 +93,34 @@ def logStr : LogKind → String
   | .unhandled => "unhandled" | .rendererFailed => "rendererFailed" | .tmGotError => "tmGotError"
   | .discarded => "discarded" | .lateResponse => "lateResponse"
 
-/-- is this response outside what the model covers (block-wise transfer, non-response code)? -/
-def outcomeOutOfModel : Outcome → Bool
-  | .returns c p _ => p.length > 1024 || (match c with
-      | some c => !(64 ≤ c && c < 192)
-      | none => false)
-  | .raisesRenderable c d => d.length > 1024 || !(64 ≤ c && c < 192)
+/-- is this response outside what the model covers (beyond `limit` bytes the block-wise layer
+takes over, C06)? -/
+def outcomeOutOfModel (limit : Nat) : Outcome → Bool
+  | .returns _ p _ => p.length > limit
+  | .raisesRenderable _ d => d.length > limit
   | _ => false
 
-def effStr (running : Bool) (o : Out) : List String :=
+def hex2 (x : Nat) : String := String.ofList [hexDigit (x / 16 % 16), hexDigit (x % 16)]
+
+def flushRun (b n : Nat) : String :=
+  if n ≥ 8 then s!"[{hex2 b}*{n}]" else String.join (List.replicate n (hex2 b))
+
+/-- the pieces in reverse order; `b` is the byte of the current run, `n` its length so far -/
+def rleAux : List Nat → Nat → Nat → List String → List String
+  | [], b, n, acc => flushRun b n :: acc
+  | x :: xs, b, n, acc =>
+    if x = b then rleAux xs b (n + 1) acc else rleAux xs x 1 (flushRun b n :: acc)
+
+/-- two hex digits per byte, a maximal run of 8 or more equal bytes as `[xx*n]`; `-` = empty -/
+def rle : Bytes → String
+  | [] => "-"
+  | x :: xs => String.join (rleAux xs x 1 []).reverse
+
+def effStr (tcp : Bool) (running : Bool) (o : Out) : List String :=
   match o.eff with
   | .send m l =>
-    [s!"S{o.id}:{bytesToHex o.token}:{m.code}:{bytesToHex m.payload}:{optNatStr m.noResponse}:{if l then 1 else 0}"]
+    let p := if tcp then rle m.payload else bytesToHex m.payload
+    [s!"S{o.id}:{bytesToHex o.token}:{m.code}:{p}:{optNatStr m.noResponse}:{if l then 1 else 0}"]
   | .unregister => [s!"U{o.id}"]
   | .cancelTask => if running then [s!"K{o.id}"] else []
   | .log k => [s!"L:{logStr k}"]
@@ -97,10 +131,15 @@ def asOutMsg (m : Resp) : MsgLayer.OutMsg :=
   { mtype := none, reliability := none, code := m.code, obs := none, body := 0,
     noResponse := m.noResponse.getD 0, maxRetr := 4 }
 
-def wireStr (o : Out) : List String :=
+def wireStr (tcp : Bool) (o : Out) : List String :=
   match o.eff with
   | .send m _ =>
-    if MsgLayer.suppressed (asOutMsg m) then []
+    if tcp then
+      (tcpSend o.token m).map fun
+        | .write b => rle b
+        | .sendError => "SENDERROR"
+        | _ => "BUG:tcpOut"
+    else if MsgLayer.suppressed (asOutMsg m) then []
     else [s!"{bytesToHex o.token}:{m.code}:{bytesToHex m.payload}"]
   | _ => []
 
@@ -114,19 +153,31 @@ def stillRunning (s : Sys) : In → Bool
   | _ => false
 
 /-- run the timed inputs; returns (groups in order with their tick, wire entries) -/
-def runTimed (s : Sys) (groups : List (Nat × List String)) (wire : List String) :
+def runTimed (tcp : Bool) (s : Sys) (groups : List (Nat × List String)) (wire : List String) :
     List (Nat × In) → List (Nat × List String) × List String
   | [] => (groups.reverse, wire)
   | (t, a) :: rest =>
     let r := step s a
-    let items := r.2.flatMap (effStr (stillRunning s a))
-    let w := r.2.flatMap wireStr
+    let items := r.2.flatMap (effStr tcp (stillRunning s a))
+    let w := r.2.flatMap (wireStr tcp)
     let groups' := match groups with
       | (t', g) :: gs => if t' = t then (t, g ++ items) :: gs else (t, items) :: (t', g) :: gs
       | [] => [(t, items)]
-    runTimed r.1 groups' (wire ++ w) rest
+    runTimed tcp r.1 groups' (wire ++ w) rest
 
-def handleC09 (args : List String) : String :=
+/-- `tcp.<n>` as first argument: TCP mode with the given payload limit -/
+def parseMode (args : List String) : Option (Bool × Nat × List String) :=
+  match args with
+  | first :: rest =>
+    match first.splitOn "." with
+    | ["tcp", n] => n.toNat?.map fun n => (true, n, rest)
+    | _ => some (false, 1024, args)
+  | [] => none
+
+def handleC09 (args0 : List String) : String :=
+  match parseMode args0 with
+  | none => "bad-op"
+  | some (tcp, limit, args) =>
   match args with
   | siteTag :: rest =>
     let resArgs := rest.takeWhile (· ≠ "--")
@@ -141,8 +192,8 @@ def handleC09 (args : List String) : String :=
       match site with
       | none => "bad-op"
       | some site =>
-        if res.any (fun r => r.2.any (fun h => outcomeOutOfModel h.2)) then "out-of-model" else
-        let (groups, wire) := runTimed (Sys.init site) [] [] evs
+        if res.any (fun r => r.2.any (fun h => outcomeOutOfModel limit h.2)) then "out-of-model" else
+        let (groups, wire) := runTimed tcp (Sys.init site) [] [] evs
         "|".intercalate (groups.map fun g => ";".intercalate (sortStrs g.2)) ++ " # " ++
           ";".intercalate (sortStrs wire)
     | _, _ => "bad-op"
